@@ -1,7 +1,8 @@
 --------------------------- MODULE Trace_RoundTrip ---------------------------
-(* C09: one event per stylesheet: {case, items, r1, r2, devs}                    *)
-(*   r1 = result of compiling the rendered SCSS (expanded), r2 = result of        *)
-(*   compiling r1's output as plain CSS; result = [st, lines]                     *)
+(* C09: one event per stylesheet: {case, items, mode, r1, r2, devs}              *)
+(*   r1 = result of compiling the rendered text (expanded) as SCSS (mode "scss")  *)
+(*   or as plain CSS (mode "css"), r2 = result of compiling r1's output as plain  *)
+(*   CSS; result = [st, lines]                                                    *)
 (* Explained iff RoundTrip!RoundTripOK(r1, r2); not judged when the stylesheet is  *)
 (* outside the construct subset or the first compilation did not succeed.         *)
 EXTENDS RoundTrip, Json, IOUtils, TLC, TLCExt
@@ -18,7 +19,9 @@ Explained(e) ==
   ELSE IF e.r1.st # "ok" THEN PrintT(<<"MSG", "SKIP", "first_compile", e.case>>)
   ELSE IF RoundTripOK(e.r1, e.r2) THEN TRUE
   ELSE LET D == SeqToSet(e.devs) \cap Deviations IN
-       IF Predicted(D, e.items, e.r1, e.r2)
+       IF "comment_reindent_grows" \in D /\ e.r2.st = "ok" /\ SameLinesD(e.r1.lines, e.r2.lines, {"comment_reindent_grows"})
+          THEN PrintT(<<"MSG", "KNOWN", "comment_reindent_grows", e.case>>)
+       ELSE IF Predicted(D, e.items, e.r1, e.r2)
           THEN PrintT(<<"MSG", "KNOWN", {d \in D : \E i \in DOMAIN e.items : InScope(d, e.items[i])}, e.case>>)
        ELSE PrintT(<<"MSG", "REJECT", e.case, e.r2.st>>) /\ FALSE
 
